@@ -77,6 +77,12 @@ Section XPM.
   Lemma proj_init cs : proj (xinit m mask cs) = init m mask true cs.
   Proof. unfold xinit, init. rewrite proj_reload. reflexivity. Qed.
 
+  Lemma delivery_manager_side o s nc n i :
+    proj (xreload m mask s nc) = reload m mask true (proj s) nc /\
+    proj (xdeliver o s n i) = proj s /\
+    proj (xcreate m s n) = create m (proj s) n.
+  Proof. split; [apply proj_reload|split; [apply proj_deliver|apply proj_create]]. Qed.
+
   (* ---------------------------------------------------------------- what is handed over is what the manager recorded *)
   Lemma reload_path_delivery (old nc : cs_t) p q :
     reload_path m mask true old nc p = PKeep q ->
